@@ -3,6 +3,7 @@ package c17
 
 import (
 	"fmt"
+	"math"
 	"sort"
 	"testing"
 
@@ -25,7 +26,7 @@ type Case struct {
 	Near     int64
 }
 
-func v(o Off) int64 { return o.F<<16 | int64(o.B) }
+func v(o Off) uint64 { return uint64(o.F)<<16 | uint64(o.B) } // unsigned: file offsets reach 2^48-1
 
 func toLib(cs []Ch) []bgzf.Chunk {
 	out := make([]bgzf.Chunk, len(cs))
@@ -35,13 +36,13 @@ func toLib(cs []Ch) []bgzf.Chunk {
 	return out
 }
 
-type iv struct{ lo, hi int64 }
+type iv struct{ lo, hi uint64 }
 
 // union returns the covered half-open ranges of virtual-offset space, normalised.
 func union(cs []bgzf.Chunk) []iv {
 	var x []iv
 	for _, c := range cs {
-		lo, hi := c.Begin.File<<16|int64(c.Begin.Block), c.End.File<<16|int64(c.End.Block)
+		lo, hi := vo(c.Begin), vo(c.End)
 		if hi > lo {
 			x = append(x, iv{lo, hi})
 		}
@@ -82,10 +83,16 @@ func strategy(c Case) index.MergeStrategy {
 	case "squash":
 		return index.Squash
 	}
-	return index.CompressorStrategy(c.Near)
+	// one strategy value serves many lists (Index.MergeChunks applies it to every
+	// bin): it has been applied to two other lists, one in which nothing merges
+	// and one in which everything does, before it gets the list of the case
+	st := index.CompressorStrategy(c.Near)
+	st([]bgzf.Chunk{{Begin: bgzf.Offset{File: 7, Block: 1}, End: bgzf.Offset{File: 7, Block: 9}}})
+	st([]bgzf.Chunk{{Begin: bgzf.Offset{File: 3}, End: bgzf.Offset{File: 4}}, {Begin: bgzf.Offset{File: 3, Block: 2}, End: bgzf.Offset{File: 5}}, {Begin: bgzf.Offset{File: 1 << 30}, End: bgzf.Offset{File: 1<<30 + 1}}})
+	return st
 }
 
-func vo(o bgzf.Offset) int64 { return o.File<<16 | int64(o.Block) }
+func vo(o bgzf.Offset) uint64 { return uint64(o.File)<<16 | uint64(o.Block) }
 
 func run(c Case, rec *h.Rec) {
 	in := toLib(c.Chunks)
@@ -261,6 +268,10 @@ func chunkGen(small bool) *rapid.Generator[Ch] {
 			if small {
 				return Off{int64(rapid.IntRange(0, 6).Draw(t, label+"F")), uint16(rapid.IntRange(0, 3).Draw(t, label+"B"))}
 			}
+			if rapid.IntRange(0, 3).Draw(t, label+"top") == 0 {
+				// the upper half of the 48-bit file offset range (negative as a signed virtual offset)
+				return Off{rapid.Int64Range(1<<47-2, 1<<48-1).Draw(t, label+"F"), rapid.Uint16().Draw(t, label+"B")}
+			}
 			return Off{rapid.Int64Range(0, 1<<40).Draw(t, label+"F"), rapid.Uint16().Draw(t, label+"B")}
 		}
 		b := off("b")
@@ -294,7 +305,7 @@ func draw(t *rapid.T) Case {
 		near = rapid.Int64Range(-3, 10).Draw(t, "near")
 		if rapid.IntRange(0, 5).Draw(t, "hugeNear") == 0 {
 			// thresholds beyond any file offset: everything is within reach of everything
-			near = rapid.SampledFrom([]int64{1 << 40, 1 << 47, 1 << 48, 1 << 50}).Draw(t, "huge")
+			near = rapid.SampledFrom([]int64{1 << 40, 1 << 47, 1 << 48, 1 << 50, 1 << 62, math.MaxInt64 - 1, math.MaxInt64}).Draw(t, "huge")
 		}
 	}
 	return Case{Chunks: cs, Strategy: s.name, Near: near}
